@@ -3,7 +3,7 @@ import MythVerif.Proofs.WsQueueTsoTac
 namespace MythVerif.WsqTso
 open MythVerif.Wsq
 
-set_option maxHeartbeats 1000000 in
+set_option maxHeartbeats 4000000 in
 theorem t_vk4 (s s' : St) (p : Pid) (b r) : Inv s → s.tpc p = .vk4 b r → stepT s p = some s' → Inv s' := by
   intro h heq hs
   have hb := h.tbufE p (by simp [heq, mayBuf])
@@ -13,7 +13,7 @@ theorem t_vk4 (s s' : St) (p : Pid) (b r) : Inv s → s.tpc p = .vk4 b r → ste
   simp only [ownerLocked, carry, resetting, ownerFlight] at *
   tso_finish
 
-set_option maxHeartbeats 1000000 in
+set_option maxHeartbeats 4000000 in
 theorem t_vk5 (s s' : St) (p : Pid) (b) : Inv s → s.tpc p = .vk5 b → stepT s p = some s' → Inv s' := by
   intro h heq hs
   obtain ⟨hlb, htr, hsh⟩ := h.vk5 p b heq
@@ -35,21 +35,28 @@ theorem t_vk5 (s s' : St) (p : Pid) (b) : Inv s → s.tpc p = .vk5 b → stepT s
       exact hvu q hq
   tso_rest
 
-set_option maxHeartbeats 1000000 in
+set_option maxHeartbeats 4000000 in
 theorem t_vu (s s' : St) (p : Pid) : Inv s → s.tpc p = .vu → stepT s p = some s' → Inv s' := by
   intro h heq hs
   have hcfg := h.cfg
-  cases h
+  have hvu := h.vu p heq
   simp only [stepT, heq, releaseT, hcfg, code_unlockFence, if_true] at hs
   split at hs
   · rename_i hb
     simp at hb
+    have htr : s.tr = false := by
+      rw [hb] at hvu
+      rcases hvu with ⟨r, h1, _⟩ | ⟨h1, _⟩ | ⟨_, h1⟩
+      · simp at h1
+      · simp at h1
+      · exact h1
+    cases h
     simp at hs; subst hs
     simp only [ownerLocked, carry, resetting, ownerFlight] at *
     tso_finish
   · simp at hs
 
-set_option maxHeartbeats 1000000 in
+set_option maxHeartbeats 4000000 in
 theorem t_vr (s s' : St) (p : Pid) : Inv s → s.tpc p = .vr → stepT s p = some s' → Inv s' := by
   intro h heq hs
   have hb := h.tbufE p (by simp [heq, mayBuf])
